@@ -43,6 +43,7 @@ def setup(ctx):
     ctx.require("monitor", "l2_slow_handler_responses", 10)
     ctx.require("monitor", "l2_bounded_pipe", 20)
     ctx.require("monitor", "l2_other_success_statuses", 20)
+    ctx.require("monitor", "l2_text_bodies_with_charset_parameter", 15)
     ctx.require("monitor", "static_files_rewritten_while_serving", 12)
     ctx.require("monitor", "static_files_with_special_text", 8)
     ctx.require("backend", "pyopenssl", 10)
@@ -165,7 +166,11 @@ def run_l2(ctx):
                 else:
                     body = text_body(n, rng)
                     exp_body = body.encode("utf-8")
-                    meta = "text/gemini"
+                    # text is sent as UTF-8 whatever parameters the handler's meta carries (they describe, they do not transcode)
+                    meta = ("text/gemini", "text/plain; charset=iso-8859-1", "text/gemini", "text/gemini; charset=utf-16", 'text/plain; charset="utf-8"', "text/gemini", "text/plain; charset=x-no-such-charset",
+                            "text/gemini; lang=de", "text/plain; charset=ascii")[(idx // 2) % 9]
+                    if "charset" in meta:
+                        ctx.count("monitor", "l2_text_bodies_with_charset_parameter")
                 mode = ("sync", "async", "sync+client-half-close", "async-slow+late-client-bytes", "async-45s")[(idx + idx // 5) % 5]
 
                 # every success status carries its body, not only 20
